@@ -60,6 +60,9 @@ type Sink interface {
 type DataContext struct {
 	Inner ast.IDataContext
 	Sink  Sink
+	// wrappers preserves object identity: the real data context hands out the SAME node object for a
+	// key until the key is added again, and so must the wrapper (code may legitimately compare nodes)
+	wrappers map[model.ValueNode]*ValueNode
 }
 
 var _ ast.IDataContext = (*DataContext)(nil)
@@ -96,7 +99,15 @@ func (d *DataContext) Get(key string) model.ValueNode {
 	if n == nil {
 		return nil
 	}
-	return &ValueNode{Inner: n, Sink: d.Sink, Path: key}
+	if w, ok := d.wrappers[n]; ok {
+		return w
+	}
+	if d.wrappers == nil {
+		d.wrappers = map[model.ValueNode]*ValueNode{}
+	}
+	w := &ValueNode{Inner: n, Sink: d.Sink, Path: key}
+	d.wrappers[n] = w
+	return w
 }
 
 func (d *DataContext) GetKeys() []string         { return d.Inner.GetKeys() }
@@ -134,6 +145,7 @@ type ValueNode struct {
 	Inner model.ValueNode
 	Sink  Sink
 	Path  string
+	up    *ValueNode // the wrapper this node was obtained from (identity of Parent() is preserved)
 }
 
 var _ model.ValueNode = (*ValueNode)(nil)
@@ -142,7 +154,7 @@ func (n *ValueNode) wrap(c model.ValueNode, path string) model.ValueNode {
 	if c == nil {
 		return nil
 	}
-	return &ValueNode{Inner: c, Sink: n.Sink, Path: path}
+	return &ValueNode{Inner: c, Sink: n.Sink, Path: path, up: n}
 }
 
 func (n *ValueNode) IdentifiedAs() string  { return n.Inner.IdentifiedAs() }
@@ -152,6 +164,9 @@ func (n *ValueNode) Parent() model.ValueNode {
 	p := n.Inner.Parent()
 	if p == nil {
 		return nil
+	}
+	if n.up != nil && n.up.Inner == p {
+		return n.up
 	}
 	pp := n.Path
 	if i := strings.LastIndexAny(pp, ".["); i > 0 {
